@@ -162,6 +162,57 @@ mod te {
         }
     }
 
+    /// every key and item location of a parsed document (spans are part of what parsing yields)
+    pub fn dump_spans(t: &Table, out: &mut String) {
+        for (k, it) in t.iter() {
+            let ks = t.key(k).and_then(|key| key.span());
+            out.push_str(&format!("{k:?}@{ks:?}={:?}", it.span()));
+            match it {
+                Item::Table(c) => {
+                    out.push('{');
+                    dump_spans(c, out);
+                    out.push('}');
+                }
+                Item::ArrayOfTables(a) => {
+                    out.push('[');
+                    for c in a.iter() {
+                        out.push_str(&format!("{:?}{{", c.span()));
+                        dump_spans(c, out);
+                        out.push('}');
+                    }
+                    out.push(']');
+                }
+                Item::Value(v) => dump_value_spans(v, out),
+                Item::None => {}
+            }
+            out.push(';');
+        }
+    }
+    pub fn dump_value_spans(v: &Value, out: &mut String) {
+        match v {
+            Value::Array(a) => {
+                out.push('[');
+                for e in a.iter() {
+                    out.push_str(&format!("{:?}", e.span()));
+                    dump_value_spans(e, out);
+                    out.push(',');
+                }
+                out.push(']');
+            }
+            Value::InlineTable(t) => {
+                out.push('{');
+                for (k, e) in t.iter() {
+                    let ks = t.key(k).and_then(|key| key.span());
+                    out.push_str(&format!("{k:?}@{ks:?}={:?}", e.span()));
+                    dump_value_spans(e, out);
+                    out.push(',');
+                }
+                out.push('}');
+            }
+            _ => {}
+        }
+    }
+
     pub fn build_value(s: &Spec) -> Value {
         match s {
             Spec::S(x) => Value::from(x.as_str()),
@@ -268,6 +319,9 @@ fn main() {
                         let mut s = String::new();
                         te::dump_table(d.as_table(), &mut s);
                         out.push_str(&format!("{i} P ok {}\n", hex(&s)));
+                        let mut sp = String::new();
+                        te::dump_spans(d.as_table(), &mut sp);
+                        out.push_str(&format!("{i} S {}\n", hex(&sp)));
                         #[cfg(feature = "te_display")]
                         {
                             let m = d.clone().into_mut();
